@@ -764,6 +764,9 @@ mod c04 {
             if let Some(u) = &udp {
                 let mut buf = [0u8; 8];
                 while let Ok((n, _from)) = u.try_recv_from(&mut buf) {
+                    if n >= 1 && buf[0] == 0xFF {
+                        continue; // group traffic of the bystanders (same group and port), not ours
+                    }
                     let d = if n >= 2 { ((buf[0] as u64) << 8) | buf[1] as u64 } else { 0 };
                     rec::emit(json!({"ev":"recv","h":h,"inc":inc,"d":d}));
                 }
@@ -923,7 +926,12 @@ mod c04 {
     async fn bystander(h: usize, notify: Rc<Notify>) -> turmoil::Result {
         let udp = UdpSocket::bind((IpAddr::V4(Ipv4Addr::UNSPECIFIED), UDP_PORT)).await?;
         let mut buf = [0u8; 8];
+        // h3 is a member of the same multicast group (address and port) as the sockets of
+        // h1 / h2; h4 sends to the group in every step.  A crash of h1 / h2 must not cost h3
+        // its membership.
+        let group = Ipv4Addr::new(239, 1, 1, 1);
         if h == 3 {
+            udp.join_multicast_v4(group, Ipv4Addr::UNSPECIFIED)?;
             let l = TcpListener::bind((IpAddr::V4(Ipv4Addr::UNSPECIFIED), TCP_PORT)).await?;
             tokio::task::spawn_local(async move {
                 let Ok((mut s, peer)) = l.accept().await else { return };
@@ -983,6 +991,7 @@ mod c04 {
                 }
                 k = k.wrapping_add(1);
                 let _ = udp.send_to(&[k], (hname(3), UDP_PORT)).await;
+                let _ = udp.send_to(&[0xFF, k], (IpAddr::V4(group), UDP_PORT)).await;
                 let w = stream.borrow_mut().take();
                 if let Some(mut w) = w {
                     let r = w.write_all(&[k]).await;
